@@ -5,7 +5,7 @@ from harness import gen_seq
 from runner import Case, CaseSet
 
 ID = 'C02'
-OBLIGATIONS = ['Props/C02.v', 'Props/Tie/charge_tie.v', 'Props/Tie/delta_formulas_tie.v']
+OBLIGATIONS = ['Props/C02.v', 'Props/Tie/charge_tie.v', 'Props/Tie/delta_formulas_tie.v', 'Props/Tie/minipy_delta_tie.v']
 RULE = ('exhaustive +/-/0 patterns of length 1..n (quick 8, thorough 10) each spelled with random residues of the class; '
         'random IDP-like / polyampholyte / polyelectrolyte / low-complexity / uniform sequences (length <= 80 quick, '
         '<= 400 thorough); all 20 singletons; non-trivial = distinct sequence with N >= 5 and >= 1 charged residue')
@@ -16,6 +16,7 @@ LEVEL_TEXT = ('Proof: Spec.delta is the property statement; the loop-shaped mode
               'Tie: the charge table and the source arithmetic (translated by py2coq) are proved equal to the model on '
               'complete grids; get_delta() is compared with the model inside Coq on exhaustive short patterns and random sequences.')
 LEVEL_NOTE = ('Closed under the global context (no axioms). Trusts py2coq, the harness, Qred/vm_compute; float accuracy sampled with 1e-9.')
+LEVEL_NOTE_MINIPY = ' Whole-function ties (minipy_delta_tie.v): sigma, deltaForm and delta are translated into Core/MiniPy.v terms on every run (every a / b read as exact rational division); for every charge pattern the translated code returns exactly Model.Delta.m_sigma / m_deltaForm / m_delta.'
 TECHNIQUE = 'Coq proof (model == spec by induction over the blob loop) + translator tie on grids + in-Coq differential correspondence'
 
 IMPORTS = ('From Coq Require Import List ZArith QArith String.\n'
